@@ -25,7 +25,8 @@ Tree     == Obj(<<P(Kx, One), P(Kc, Arr(<<Ref(<<"@Tree">>, <<>>), Ref(<<"@Tree">
 Loop2    == Ref(<<"@Loop2", "@I">>, <<>>)                                     \* only the later alternative terminates
 Types == << [name |-> "@RecLast", n |-> RecLast], [name |-> "@RecFirst", n |-> RecFirst], [name |-> "@RecMid", n |-> RecMid],
             [name |-> "@Tree", n |-> Tree], [name |-> "@I", n |-> One], [name |-> "@Loop2", n |-> Loop2],
-            [name |-> "@K", n |-> Lit(StrD(Sabc), <<R("minLength", NV(N1))>>)] >>
+            [name |-> "@K", n |-> Lit(StrD(Sabc), <<R("minLength", NV(N1))>>)],
+            [name |-> "@KQ", n |-> Lit(StrD(<<97, 34>>), <<>>)], [name |-> "@KB", n |-> Lit(StrD(<<34, 97, 92>>), <<>>)] >>     \* a"  and  "a\
 Env == [types |-> Types, enums |-> <<>>]
 KQuote == <<97, 34, 98>>            \* a"b
 KBack  == <<97, 92, 98>>            \* a\b
@@ -35,7 +36,7 @@ Roots == { Obj(<<P(KQuote, One)>>, <<>>), Obj(<<P(KBack, One), P(KNl, Two)>>, <<
            Ref(<<"@RecLast">>, <<>>), Ref(<<"@RecFirst">>, <<>>), Ref(<<"@RecMid">>, <<>>), Ref(<<"@Tree">>, <<>>),
            Obj(<<P(Ka, Ref(<<"@RecLast">>, <<>>)), P(Kb, One)>>, <<>>), Arr(<<Ref(<<"@RecLast">>, <<>>), One>>, <<>>),
            Ref(<<"@Loop2">>, <<>>), Obj(<<P(Ka, Ref(<<"@Loop2">>, <<>>))>>, <<>>), Arr(<<Ref(<<"@Loop2">>, <<>>)>>, <<>>),
-           Obj(<<SC("@K", One)>>, <<>>), Obj(<<SC("@K", One), P(Kx, Two)>>, <<>>),
+           Obj(<<SC("@K", One)>>, <<>>), Obj(<<SC("@K", One), P(Kx, Two)>>, <<>>), Obj(<<SC("@KQ", One)>>, <<>>), Obj(<<SC("@KB", One)>>, <<>>),
            Lit(NumD(N1), <<R("enum", [t |-> "list", items |-> <<[t |-> "val", v |-> NumD(N1)], [t |-> "val", v |-> StrD(Sa)]>>])>>),
            Arr(<<>>, <<>>), Obj(<<>>, <<>>), Arr(<<Arr(<<>>, <<>>), Obj(<<>>, <<>>)>>, <<>>),
            Lit(StrD(<<97, 34, 92, 10, 233>>), <<>>), Lit(NumD(<<45, 48, 46, 53, 48>>), <<>>) }
